@@ -83,17 +83,22 @@ func names(ch []*parser.ASTNode) []string {
 
 // treeStats is filled by wellFormed (evidence only).
 type treeStats struct {
-	nodes, depth int
-	kinds        map[string]bool
+	nodes, depth    int
+	kinds           map[string]bool
+	mapEntryNotPair bool
 }
 
 // wellFormed walks a returned tree with explicit structural checks and reports the first
-// violation of the schema.
-func wellFormed(root *parser.ASTNode) *shapeErr {
-	return wellFormedStats(root, nil)
+// violation of the schema. validated = the tree has passed Runtime.Validate() without an
+// error: the repository puts construct-specific structure checks into Validate (sink, loop,
+// assignment) and its own parser tests pin `{ b }` as a parseable map (`if { b }` must fail
+// with "Unexpected end" after the map), so the rule that Eval needs for map entries is
+// demanded of validated trees only.
+func wellFormed(root *parser.ASTNode, validated bool) *shapeErr {
+	return wellFormedStats(root, nil, validated)
 }
 
-func wellFormedStats(root *parser.ASTNode, st *treeStats) *shapeErr {
+func wellFormedStats(root *parser.ASTNode, st *treeStats, validated bool) *shapeErr {
 	if root == nil {
 		return bad("nil-node", "root", "tree is nil")
 	}
@@ -261,7 +266,13 @@ func wellFormedStats(root *parser.ASTNode, st *treeStats) *shapeErr {
 			// rt_value.go:163-164: kvp.Children[0], kvp.Children[1] for EVERY child of a map
 			for i, c := range n.Children {
 				if len(c.Children) < 2 {
-					e = bad("map-entry-shape", path, "map child %d is a %s node with %d children; mapValueRuntime.Eval indexes Children[0] and Children[1] of every map child unchecked (children %v)", i, c.Name, len(c.Children), names(n.Children))
+					if st != nil {
+						st.mapEntryNotPair = true
+					}
+					if !validated {
+						continue
+					}
+					e = bad("map-entry-shape", path, "map child %d is a %s node with %d children although Validate() accepted the tree; mapValueRuntime.Eval indexes Children[0] and Children[1] of every map child unchecked (children %v)", i, c.Name, len(c.Children), names(n.Children))
 					break
 				}
 			}
